@@ -1,6 +1,8 @@
 mod analyzer;
 mod opts;
 mod report;
+#[cfg(solstat_verif)]
+mod verif_shim;
 
 use analyzer::*;
 use opts::Opts;
@@ -10,6 +12,8 @@ use report::generation::generate_report;
 extern crate colour;
 
 fn main() {
+    #[cfg(solstat_verif)]
+    verif_shim::install_from_process_env();
     let opts = Opts::new();
 
     let vulnerabilities = vulnerabilities::analyze_dir(&opts.path, opts.vulnerabilities);
